@@ -23,6 +23,18 @@ from __future__ import annotations
 from .core import Choices
 from .env import CAUGHT_NAMES, NONEXC_NAMES, UNCAUGHT_NAMES
 
+PYFORMS = {
+    "lambda_star": "(lambda *a: %s)()",
+    "lambda_kw": "(lambda **kw: %s)()",
+    "lambda_kwonly": "(lambda *, n=1: %s)()",
+    "lambda_pos": "(lambda a, /, n=2: %s)(0)",
+    "listcomp": "[%s for a in (1,)][0]",
+    "uses_a": "(a, %s)[1]",
+    "uses_kw": "(kw, %s)[1]",
+    "uses_n": "(n, %s)[1]",
+}
+RENDER_ARGS = {"a": "A", "kw": "K", "n": "N"}
+
 TAGS = ["div", "span", "p", "b", "ul", "li", "section", "em"]
 
 
@@ -31,7 +43,7 @@ class Gen:
         self.ch = ch
         self.o = {"max_depth": 3, "max_sites": 22, "on_error": 0.3,
                   "switch": 0.12, "pipes": 0.3, "prefixes": 0.25,
-                  "macros": 0.0}
+                  "macros": 0.0, "pyforms": 0.0}
         self.o.update(opts or {})
         self.nsite = 0
         self.sites: dict[str, dict] = {}     # str(k) -> default value spec
@@ -91,7 +103,14 @@ class Gen:
         self.nsite += 1
         self.sites[str(k)] = self.value_for(role)
         self.roles[str(k)] = role
-        return {"k": "P", "id": k}
+        p = {"k": "P", "id": k}
+        if self.o["pyforms"] and self.ch.coin(self.o["pyforms"]):
+            # python sub-grammar around the probe: lambdas with star /
+            # keyword-only parameters, a comprehension, and uses of render
+            # arguments that carry the same names (a, kw, n)
+            return {"k": "pyform", "form": self.ch.pick(sorted(PYFORMS)),
+                    "e": p}
+        return p
 
     def expr(self, role: str, allow_prefix: bool = True) -> dict:
         ch = self.ch
@@ -362,6 +381,11 @@ class Ser:
             self.occ[idx]["probe"] = e["id"]
         elif k == "lit":
             self.w(e["src"])
+        elif k == "pyform":
+            pre, post = PYFORMS[e["form"]].split("%s")
+            self.w(pre)
+            self.expr(e["e"], "arg")
+            self.w(post)
         elif k == "pipe":
             for i, a in enumerate(e["alts"]):
                 if i:
@@ -514,7 +538,7 @@ def all_probe_ids(e) -> list[int]:
         return [e["id"]]
     if k == "pipe":
         return [i for a in e["alts"] for i in all_probe_ids(a)]
-    if k in ("not", "exists", "python"):
+    if k in ("not", "exists", "python", "pyform"):
         return all_probe_ids(e["e"])
     if k == "string":
         return [i for p in e["parts"] if p[0] != "lit"
